@@ -1,5 +1,6 @@
 """C08 — index well-formedness and index/storage agreement over real multi-daemon histories (runner shared with C07)."""
 import json
+import random
 
 import common
 import env as envmod
@@ -14,13 +15,15 @@ def run(ctx):
     nh = 60 if ctx.quick() else 2000
     with envmod.Env() as e:
         for i in range(nh):
-            case, p7, p8, log = c07.run_history(ctx, e, rng, rng.randint(10, 35))
+            hseed = f"{ctx.prop}-{ctx.seed}-h{i}"
+            hr = random.Random(hseed)
+            case, p7, p8, log = c07.run_history(ctx, e, hr, hr.randint(10, 35))
             ctx.case(tuple(log), nontrivial=len(log) > 5, sample={"history": log[:25], "tracked_pairs": sorted(case.tracked)} if i == 0 else None)
             ctx.count("history:steps", len(log))
             ctx.count("history:tasks", sum(1 for l in log if l.startswith("task")))
             for item in p8:
                 p, ctxlog = item if isinstance(item, tuple) else (item, log[-6:])
-                ctx.violation("index:" + p[:40].replace(" ", "_"), p, {"kind": "dhistory", "last_steps": ctxlog, "history": log})
+                ctx.violation("index:" + p[:40].replace(" ", "_"), p, {"kind": "dhistory", "hseed": hseed, "last_steps": ctxlog, "history": log})
     ctx.coverage["rule"] = ("same multi-daemon histories as C07; after every step the real index and all node trees are checked: unique "
                             "(file,node) and (acq,name), legal states, completed request => ordered timestamps and a copy in its group, "
                             "healthy untracked copy => bytes present with the registered length, no dot-prefixed name registered; external "
@@ -31,5 +34,16 @@ def run(ctx):
 
 
 def replay(ctx, path):
-    print(json.dumps(json.load(open(path)), indent=1)[:4000])
-    return 1
+    """re-run the recorded history (same per-history seed) on the current tree and report what the oracle says now"""
+    d = json.load(open(path))
+    print(json.dumps({k: d[k] for k in d if k != "history"}, indent=1)[:3000])
+    if "hseed" not in d:
+        return 1
+    with envmod.Env() as e:
+        hr = random.Random(d["hseed"])
+        case, p7, p8, log = c07.run_history(ctx, e, hr, hr.randint(10, 35))
+    for l in log:
+        print("  ", l[:200])
+    for item in p8:
+        print("VIOLATION-REPRODUCED:", item[0] if isinstance(item, tuple) else item)
+    return 1 if p8 else 0
